@@ -328,7 +328,8 @@ func runC19(p *Program, r *Report) {
 						if !ok || !isNamed(fa.X.Type(), pk.PkgPath, name) {
 							continue
 						}
-						if al, ok := fa.X.(*ssa.Alloc); !ok || !strings.Contains(al.Comment, "complit") {
+						// a literal, or a local variable of the function itself (e.g. a named result) that no other value can alias yet
+						if al, ok := fa.X.(*ssa.Alloc); !ok || !(strings.Contains(al.Comment, "complit") || (!al.Heap && al.Parent() == f)) {
 							bad = append(bad, "field assigned outside a composite literal in "+fnName(f))
 						}
 					}
@@ -458,7 +459,7 @@ func checkSinkProvenance(p *Program, r *Report, gates map[*types.TypeName]bool) 
 	}
 	// constructors whose dynamic string parameters are validated by a dedicated property
 	validated := map[string]string{
-		"URLSanitized": "C11", "URLSetSanitized": "C12", "CSSRule": "C16", "IdentifierFromConstantPrefix": "C18", "TrustedResourceURLAppend": "C13",
+		"URLSanitized": "C11", "URLSetSanitized": "C12", "CSSRule": "C16", "IdentifierFromConstantPrefix": "C18", "IdentifierFromConstant": "C18", "TrustedResourceURLAppend": "C13",
 		"trustedResourceURLFormat": "C13", "TrustedResourceURLWithParams": "C13", "StyleFromProperties": "C15", "ScriptFromDataAndConstant": "C17",
 		"TrustedSourceFromConstantDir": "C20", "HTMLEscaped": "C10", "HTMLConcat": "C10", "TrustedSourceJoin": "contents of TrustedSource values", "Sub": "trusted sub-directory",
 	}
